@@ -8,6 +8,7 @@ import (
 	"strconv"
 	"strings"
 
+	"github.com/tjfoc/gmsm/gmtls"
 	"github.com/tjfoc/gmsm/sm2"
 )
 
@@ -32,6 +33,7 @@ func init() {
 	evals["sm2signder"] = evalSm2signder
 	evals["sm2verify"] = evalSm2verify
 	evals["sm2verifyder"] = evalSm2verifyder
+	evals["tlssigv"] = evalTlssigv
 	evals["sm2enc"] = evalSm2enc
 	evals["sm2dec"] = evalSm2dec
 	evals["sm2kex"] = evalSm2kex
@@ -58,6 +60,18 @@ func h32(v *big.Int) string {
 }
 
 func pt(x, y *big.Int) string { return h32(x) + " " + h32(y) }
+
+// ptOwn: format a result and then use the two integers as scratch, as their owner may (x.Add(x, e) is what
+// sm2.Verify itself does with the result of Add): a later call must not see it - results are fresh values,
+// never shared between calls (ops of one worker process run one after the other)
+func ptOwn(x, y *big.Int) string {
+	s := pt(x, y)
+	if x != nil && y != nil {
+		x.Add(x, big.NewInt(0x5eed)).Lsh(x, 3)
+		y.SetInt64(-7)
+	}
+	return s
+}
 
 func args2big(args []string) ([]*big.Int, bool) {
 	var out []*big.Int
@@ -86,7 +100,7 @@ func evalEcsmul(args []string) string {
 	if !bytes.Equal(k, kc) {
 		return "ORACLE-FAIL:scalar-modified"
 	}
-	return pt(x, y)
+	return ptOwn(x, y)
 }
 
 // ecsmulseq <x,y,k> <x,y,k> ... : several ScalarMult calls in a row in one process (state kept between calls -
@@ -112,7 +126,7 @@ func evalEcbase(args []string) string {
 		return "bad-op"
 	}
 	x, y := sm2.P256Sm2().ScalarBaseMult(k)
-	return pt(x, y)
+	return ptOwn(x, y)
 }
 
 func evalEcadd(args []string) string {
@@ -127,7 +141,7 @@ func evalEcadd(args []string) string {
 			return "ORACLE-FAIL:input-modified"
 		}
 	}
-	return pt(x, y)
+	return ptOwn(x, y)
 }
 
 func evalEcdbl(args []string) string {
@@ -136,7 +150,7 @@ func evalEcdbl(args []string) string {
 		return "bad-op"
 	}
 	x, y := sm2.P256Sm2().Double(v[0], v[1])
-	return pt(x, y)
+	return ptOwn(x, y)
 }
 
 func evalEcon(args []string) string {
@@ -526,4 +540,23 @@ func shortReads(f *fixedRand, rnd []byte) io.Reader {
 		k = []int{0, 1, 7, 16, 39}[int(rnd[len(rnd)-1])%5]
 	}
 	return &chunkedRand{f, k}
+}
+
+// tlssigv <ecdsa|sm2> <x> <y> <msg> <sig> : gmtls.verifyHandshakeSignature for a key on the SM2 curve (the signed
+// "digest" is the message of an SM2 signature with the default ID); expected: exactly what sm2verifyder gives
+func evalTlssigv(args []string) string {
+	if len(args) != 5 {
+		return "bad-op"
+	}
+	x, ok1 := bi(args[1])
+	y, ok2 := bi(args[2])
+	msg, ok4 := unhx(args[3])
+	sig, ok5 := unhx(args[4])
+	if !ok1 || !ok2 || !ok4 || !ok5 || (args[0] != "ecdsa" && args[0] != "sm2") {
+		return "bad-op"
+	}
+	if gmtls.VerifHandshakeSig(args[0], x, y, msg, sig) == nil {
+		return "1"
+	}
+	return "0"
 }
